@@ -107,7 +107,8 @@ class SoftPlusTransform(Transform):
         return softplus(x)
 
     def _inverse(self, y):
-        return torch.expm1(y).log()
+        # log(exp(y) - 1) without overflowing for large y
+        return y + torch.log(-torch.expm1(-y))
 
     def log_abs_det_jacobian(self, x, y):
         return -softplus(-x)
@@ -121,10 +122,12 @@ class CumSumSoftPlusTransform(Transform):
     sign = +1
 
     def _call(self, x):
-        return torch.log(x.cumsum(-1).exp() + 1.0)
+        # log(exp(s) + 1) loses s < -37 (returns 0) and overflows for large s
+        return softplus(x.cumsum(-1))
 
     def _inverse(self, y):
-        y_log = torch.expm1(y).log()
+        # log(exp(y) - 1) without overflowing for large y
+        y_log = y + torch.log(-torch.expm1(-y))
         return torch.cat((y_log[..., :1], y_log[..., 1:] - y_log[..., :-1]), -1)
 
     def log_abs_det_jacobian(self, x, y):
